@@ -68,8 +68,11 @@ func runProcCloseDuringDrain(caseID string, seed int64, root string) {
 	cfg.RetryMaxInterval = toml.Duration(10 * time.Millisecond)
 	w := &gateWriter{inFirst: make(chan struct{}), release: make(chan struct{}), failAfter: true}
 	m := &metaDouble{active: 1}
-	np := hh.NewNodeProcessor(cfg, 3, 7, dir, w, m)
-	if err := np.Open(); err != nil {
+	// The queue is filled through an idle processor first: a run loop that
+	// polls an empty queue while blocks are appended is a different (known)
+	// history, the EOF-advance race.
+	np0 := hh.NewNodeProcessor(idleConfig(), 3, 7, dir, &gateWriter{}, m)
+	if err := np0.Open(); err != nil {
 		r.Inconclusive(caseID + ": open: " + err.Error())
 		return
 	}
@@ -82,12 +85,21 @@ func runProcCloseDuringDrain(caseID string, seed int64, root string) {
 			pts = append(pts, mkPoint(seq, g.Intn(40)))
 			seq++
 		}
-		if err := np.WriteShard(pts); err != nil {
+		if err := np0.WriteShard(pts); err != nil {
 			r.Inconclusive(caseID + ": WriteShard: " + err.Error())
-			np.Close()
+			np0.Close()
 			return
 		}
 		accepted = append(accepted, marshalPoints(pts))
+	}
+	if err := np0.Close(); err != nil {
+		r.Inconclusive(caseID + ": close of the filling processor: " + err.Error())
+		return
+	}
+	np := hh.NewNodeProcessor(cfg, 3, 7, dir, w, m)
+	if err := np.Open(); err != nil {
+		r.Inconclusive(caseID + ": open: " + err.Error())
+		return
 	}
 	// the run loop picks up the first block
 	select {
